@@ -228,6 +228,13 @@ class C06(SingleRun):
         gates["publish"] = True
         return gates
 
+    def tune_faults(self, K, faults):
+        f = SingleRun.tune_faults(self, K, faults)
+        # the output of a workflow that failed is rendered "in the same manner": a share of the
+        # runs fails often (fail-fast with other branches still running, unhandled failures)
+        f["p_fail"] = K.choice([0.05, 0.05, 0.05, 0.3], "pfail6")
+        return f
+
     def profile(self, seed, tier, as_prop=None):
         p = SingleRun.profile(self, seed, tier, as_prop)
         p["force_gates"] = {"publish": True}
